@@ -10,7 +10,7 @@ DOCS = ["absent", "plain", "empty", "not_first", "bytes", "fstring", "surrogate"
 _DOC_SRC = {"plain": "'doc'", "empty": "''", "bytes": "b'doc'", "fstring": "f'doc'", "surrogate": "'\\ud800doc'"}
 
 
-def render_signature(npos, nreg, star, nkw, varkw, ndefault, names=None):
+def render_signature(npos, nreg, star, nkw, varkw, ndefault, names=None, star_names=("args", "kwargs")):
     names = names or ["a", "b", "c", "d", "e", "f", "g", "h", "i", "j"]
     it = iter(names)
     pos = [next(it) for _ in range(npos)]
@@ -25,18 +25,18 @@ def render_signature(npos, nreg, star, nkw, varkw, ndefault, names=None):
         if npos and i == npos - 1:
             parts.append("/")
     if star == 1:
-        parts.append("*args")
+        parts.append("*" + star_names[0])
     elif kw:
         parts.append("*")
     for i, n in enumerate(kw):
         parts.append(n + ("=None" if (i + ndefault) % 2 else ""))
     if varkw:
-        parts.append("**kwargs")
-    used = pos + reg + kw + (["args"] if star == 1 else []) + (["kwargs"] if varkw else [])
+        parts.append("**" + (star_names[1] if not (star == 1 and star_names[1] == star_names[0]) else "kwargs"))
+    used = pos + reg + kw + ([star_names[0]] if star == 1 else []) + ([star_names[1]] if varkw else [])
     return ", ".join(parts), used
 
 
-def render_c04(kind, doc, npos, nreg, star, nkw, varkw, ndefault, capture=0, extra_locals=0, names=None):
+def render_c04(kind, doc, npos, nreg, star, nkw, varkw, ndefault, capture=0, extra_locals=0, names=None, star_names=("args", "kwargs")):
     """-> (source, min_version)"""
     minver = 8 if npos else 7
     if kind in PARAMLESS:
@@ -64,7 +64,7 @@ def render_c04(kind, doc, npos, nreg, star, nkw, varkw, ndefault, capture=0, ext
         src = {"listcomp": "[%s for i in x]", "setcomp": "{%s for i in x}", "dictcomp": "{%s: i for i in x}",
                "genexpr": "(%s for i in x)"}[kind] % elt
         return "r = " + src + "\n", 7
-    sig, used = render_signature(npos, nreg, star, nkw, varkw, ndefault, names)
+    sig, used = render_signature(npos, nreg, star, nkw, varkw, ndefault, names, star_names)
     if kind == "lambda":
         body = {"absent": "0", "plain": "'doc'", "empty": "''", "first_const_str": "'notdoc' + x", "not_first": "(0, 'doc')",
                 "bytes": "b'doc'", "fstring": "f'doc'", "surrogate": "'\\ud800doc'"}[doc]
@@ -105,8 +105,12 @@ def c04_cases(draw):
     ndefault = draw(st.integers(0, 3))
     capture = draw(st.integers(0, 3))
     extra = draw(st.integers(0, 2))
-    names = draw(st.permutations(["a", "b", "c", "d", "e", "f", "g", "h", "i", "j"]))
-    src, mv = render_c04(kind, doc, npos, nreg, star, nkw, varkw, ndefault, capture, extra, list(names))
+    # parameter names: mostly the same few names in the same order (so that different signature
+    # shapes share their leading names), sometimes permuted; *args / **kwargs share a name pool
+    base = ["a", "b", "c", "d", "e", "f", "g", "h", "i", "j"]
+    names = draw(st.permutations(base)) if draw(st.integers(0, 3)) == 0 else base
+    star_names = (draw(st.sampled_from(["args", "opts", "rest"])), draw(st.sampled_from(["kwargs", "opts", "rest"])))
+    src, mv = render_c04(kind, doc, npos, nreg, star, nkw, varkw, ndefault, capture, extra, list(names), star_names)
     return {"src": src, "mode": "exec", "optimize": draw(st.sampled_from([0, 0, 2])), "min_version": mv, "_label": "c04_shapes"}
 
 
@@ -159,6 +163,12 @@ def header_alterations(draw):
             val |= 1 << b
         alt["flags_xor" if draw(st.booleans()) else "flags_or"] = val
     if k >= 2:
-        fld = draw(st.sampled_from(["argcount_d", "posonly_d", "kwonly_d", "nlocals_d"]))
+        fld = draw(st.sampled_from(["argcount_d", "posonly_d", "kwonly_d", "nlocals_d", "stacksize_d", "firstlineno_d"]))
         alt[fld] = draw(st.sampled_from([-2, -1, 1, 2, 3]))
+    if draw(st.integers(0, 5)) == 0:
+        alt["filename"] = draw(st.sampled_from(["other.py", "<hdr>.b", "x"]))
+    if draw(st.integers(0, 7)) == 0:
+        alt["name"] = draw(st.sampled_from(["renamed", "<lambda>", "f"]))
+    alt["target"] = draw(st.integers(0, 19))
+    alt["via_parent"] = draw(st.integers(0, 2)) == 0
     return alt
